@@ -106,9 +106,14 @@ def check(case, ctx):
         # what the driver would assume for this link right now
         assumed = None
         if _find_dependencies is not None and not has_push_delay:
-            deps = _find_dependencies(_Comp, {link.out: object()}, t)
-            if link.out in deps:
-                assumed = deps[link.out][0]
+            try:
+                deps = _find_dependencies(_Comp, {link.out: object()}, t)
+                if link.out in deps:
+                    assumed = deps[link.out][0]
+            except (TypeError, AttributeError, KeyError, IndexError):
+                # private helper changed its interface: this sub-oracle is skipped (C01/C02/C04 decide it black-box)
+                _find_dependencies = None
+                ctx.event("driver-view-unavailable")
         exp, clamped = model.request(t, newest)
         del log[:]
         try:
